@@ -35,19 +35,38 @@ def _dtype_for(a, dtype):
     return np.asarray(a).astype(dtype)
 
 
-def rec_match(pred, ref, kind: str, mm: str, thr, chain=(), dtype=np.uint8, meta=None) -> dict:
+LAYOUTS = ("C", "F", "T-view", "negstride", "strided")
+
+
+def relayout(a: np.ndarray, layout: str) -> np.ndarray:
+    """the same logical array in another memory layout"""
+    if layout == "F":
+        return np.asfortranarray(a)
+    if layout == "T-view":
+        return np.ascontiguousarray(a.T).T           # C-contiguous data of the transpose, viewed back
+    if layout == "negstride":
+        return np.ascontiguousarray(np.flip(a, axis=0))[::-1]
+    if layout == "strided":
+        big = np.zeros(tuple(2 * s for s in a.shape), dtype=a.dtype)
+        sl = tuple(slice(None, None, 2) for _ in a.shape)
+        big[sl] = a
+        return big[sl]
+    return a
+
+
+def rec_match(pred, ref, kind: str, mm: str, thr, chain=(), dtype=np.uint8, meta=None, layout="C") -> dict:
     """One call of match_instances (plus the same input at the thresholds of `chain`)."""
-    pred = _dtype_for(pred, dtype)
-    ref = _dtype_for(ref, dtype)
+    pred = relayout(_dtype_for(pred, dtype), layout)
+    ref = relayout(_dtype_for(ref, dtype), layout)
     rec = {"shape": shape_of(ref), "matcher": kind, "mm": mm, "thr": list(thr), "out": "ok",
            "mp": [], "mr": [], "chain": [], "meta": dict(meta or {})}
     rec["meta"].update({"dtype": str(np.dtype(dtype)), "raw_pred": pred.ravel().tolist(),
-                        "raw_ref": ref.ravel().tolist()})
+                        "raw_ref": ref.ravel().tolist(), "layout": layout})
     outs = []
     try:
         with quiet(), mem_limit():
             for t in [thr] + list(chain):
-                pair = UnmatchedInstancePair(pred.copy(), ref.copy())
+                pair = UnmatchedInstancePair(relayout(pred.copy(), layout), relayout(ref.copy(), layout))
                 m = make_matcher(kind, mm, t).match_instances(pair)
                 outs.append((t, np.asarray(m.prediction_arr), np.asarray(m.reference_arr)))
     except Exception as e:  # noqa: BLE001  an exception is an observation (C03: must terminate with a result)
